@@ -510,21 +510,21 @@ def native_path_choice(chk):
         d = os.path.join(chk.native.dir, 'pc%d' % chk.native.n)
         chk.native.n += 1
         os.makedirs(d)
-        for sub, fname in (('argdir', 'FromArg.sol'), ('cfgdir', 'FromConfig.sol')) + ((('contracts', 'FromDefault.sol'),) if contracts else ()):
+        for sub, fname in (('.argdir', 'FromArg.sol'), ('.cfg.d', 'FromConfig.sol')) + ((('contracts', 'FromDefault.sol'),) if contracts else ()):
             os.makedirs(os.path.join(d, sub))
             open(os.path.join(d, sub, fname), 'w').write(text)
         open(os.path.join(d, 'afile'), 'w').write(text)
         if tomldir:
             # the configuration file lives in another directory, next to directories of the same names: relative paths are relative to the
             # working directory, not to the configuration file
-            for sub in ('argdir', 'cfgdir', 'contracts'):
+            for sub in ('.argdir', '.cfg.d', 'contracts'):
                 os.makedirs(os.path.join(d, tomldir, sub))
                 open(os.path.join(d, tomldir, sub, 'FromNextToConfig.sol'), 'w').write(text)
         cmd = [os.path.join(chk.world.build, 'solstat')]
         if arg != 'none':
-            cmd += ['--path', {'dir': 'argdir', 'missing': 'no-such-dir', 'file': 'afile'}[arg]]
+            cmd += ['--path', {'dir': '.argdir', 'missing': 'no-such-dir', 'file': 'afile'}[arg]]
         if cfgp != 'none':
-            open(os.path.join(d, tomldir, 'cfg.toml'), 'w').write('path = "%s"\noptimizations = ["sstore"]\nvulnerabilities = []\nqa = []\n' % {'dir': 'cfgdir', 'missing': 'no-such-cfg-dir'}[cfgp])
+            open(os.path.join(d, tomldir, 'cfg.toml'), 'w').write('path = "%s"\noptimizations = ["sstore"]\nvulnerabilities = []\nqa = []\n' % {'dir': '.cfg.d', 'missing': 'no-such-cfg-dir'}[cfgp])
             cmd += ['--toml', os.path.join(tomldir, 'cfg.toml')]
         p = subprocess.run(cmd, cwd=d, stdout=subprocess.PIPE, stderr=subprocess.PIPE, text=True)
         chk.validated += 1
